@@ -151,6 +151,8 @@ def _vary2(rng, case):
         # the statement counts responding addresses
         for h in good:
             h["shared_id"] = True
+    if rng.random() < 0.15:
+        case["wall_steps"] = [[rng.choice([0.02, 0.3, 0.9, 1.5]), rng.choice([3600.0, -3600.0, 86400.0 * 30, 5.0])]]
     if rng.random() < 0.2:
         # the kernel reports ICMP errors for the probes (port unreachable from some other machine on the subnet): asyncio hands
         # them to the protocol's error_received at these times (seconds after the start of the run)
@@ -178,7 +180,7 @@ def _generate(ctx, rng):
                 hosts = [{"good": False, "klass": klass, "version": version, "copies": 1 + (n % 3)}] + \
                         [{"good": True, "version": rng.choice([2, 3]), "copies": rng.randint(1, 2)} for _ in range(ngood)]
                 counts = [h["copies"] for h in hosts]
-                for order in _orders(counts, 40 if quick else 600):
+                for order in _orders(counts, 40 if quick else 1800):
                     n += 1
                     yield ("bad", n), {"hosts": hosts, "order": order, "salt": rng.randrange(1000)}
     # every subset of hosts bad
@@ -193,7 +195,7 @@ def _generate(ctx, rng):
                 yield ("subset", n), {"hosts": hosts, "order": seq, "salt": rng.randrange(1000)}
     # duplicates only: all interleavings for <= 6 datagrams
     for counts in ([1], [2], [3], [1, 1], [2, 1], [2, 2], [3, 2], [3, 3], [1, 1, 1], [2, 1, 1], [2, 2, 1], [2, 2, 2], [3, 2, 1], [1, 1, 1, 1], [2, 1, 1, 1]):
-        for order in _orders(counts, 200 if quick else 10000):
+        for order in _orders(counts, 200 if quick else 30000):
             n += 1
             yield ("dup", n), {"hosts": [{"good": True, "version": 2 + (i + n) % 2, "copies": c} for i, c in enumerate(counts)],
                                "order": order, "salt": rng.randrange(1000)}
@@ -201,12 +203,12 @@ def _generate(ctx, rng):
     for counts in ([2], [3], [2, 1], [2, 2], [3, 2], [2, 2, 1]):
         for first_version in (2, 3):
             for gap in (0.0, 0.01, 0.3):
-                for order in _orders(counts, 30 if quick else 1500):
+                for order in _orders(counts, 30 if quick else 4500):
                     n += 1
                     yield ("dual", n), {"hosts": [{"good": True, "version": first_version if i == 0 else 2 + (i + n) % 2, "copies": c,
                                                    "dual": "always" if i == 0 else False} for i, c in enumerate(counts)],
                                         "order": order, "salt": rng.randrange(1000), "gap": gap}
-    for j in range(1500 if quick else 750000):
+    for j in range(1500 if quick else 2250000):
         nh = rng.randint(1, 4)
         hosts = [({"good": False, "klass": rng.choice(BAD_CLASSES), "version": rng.choice([2, 3]), "copies": rng.randint(1, 3)}
                   if rng.random() < 0.4 else {"good": True, "version": rng.choice([2, 3]), "copies": rng.randint(1, 3)}) for _ in range(nh)]
@@ -266,6 +268,9 @@ def run_case(ctx, case):
 
     async def go(loop):
         import asyncio
+        from ..runtime import vloop
+        for at, delta in case.get("wall_steps") or ():
+            loop.call_later(at, vloop.wall_step, delta)          # the system clock is corrected while the discovery is listening
         for t in case.get("udp_errors") or ():
             def icmp():
                 for tr in getattr(net, "udp_transports", []):
@@ -275,7 +280,7 @@ def run_case(ctx, case):
             loop.call_later(t, icmp)
         return await Discover.discover(**kw)
 
-    key = ("c18", tmo, named, tuple(case.get("udp_errors") or ()), tuple(bool(h.get("shared_id")) for h in hosts), tuple(h.get("delay") for h in hosts), tuple((h["good"], h.get("klass"), h["version"], h["copies"], h.get("dual"), h.get("body_ip"), h.get("type")) for h in hosts), tuple(case["order"]), case.get("gap"))
+    key = ("c18", tmo, named, repr(case.get("wall_steps")), tuple(case.get("udp_errors") or ()), tuple(bool(h.get("shared_id")) for h in hosts), tuple(h.get("delay") for h in hosts), tuple((h["good"], h.get("klass"), h["version"], h["copies"], h.get("dual"), h.get("body_ip"), h.get("type")) for h in hosts), tuple(case["order"]), case.get("gap"))
     nontrivial = len(case["order"]) >= 2 or any(not h["good"] for h in hosts)
     unhandled = []
     try:
